@@ -62,6 +62,21 @@ Theorem C11_absent_steps :
 Proof. exact absent_steps. Qed.
 Print Assumptions C11_absent_steps.
 
+(* histories: any number of renders one after the other in one process. Every in-domain render of a history prints
+   what the property demands of its own value ... *)
+Theorem C11_history : forall (h : list render_req),
+  dom_history h = true -> run_history h = spec_history h.
+Proof. exact history_sound. Qed.
+Print Assumptions C11_history.
+
+(* ... and, in or out of the domain, exactly what the same render gives alone: nothing that was rendered before
+   (or is rendered after) it has any influence. True of M by construction (M keeps nothing between renders); that it
+   is true of the Go code is what the histories of the correspondence run explore. *)
+Theorem C11_history_independent : forall (h1 h2 : list render_req) (d : gv) (p : list step) (raw : bool),
+  nth_error (run_history (h1 ++ (d, p, raw) :: h2)) (length h1) = Some (run d p raw).
+Proof. exact history_independent. Qed.
+Print Assumptions C11_history_independent.
+
 (* the full statement without fold_free is false of the faithful model: F-C11-a, nested and at the top level *)
 Theorem C11_fold_refuted :
   exists d p raw,
